@@ -398,6 +398,9 @@ func CheckC16(s Script, tr Trace) error {
 	if tr.NewErr != "" || !tr.Stopped() {
 		return nil
 	}
+	if tr.StopMode == "cancel" && !tr.CancelTookEffect {
+		return fmt.Errorf("the context was cancelled at %dns during op #%d with %d item(s) in flight; Err() was not closed within 50 settle rounds of virtual time (before Stop() was called)", tr.StopIssuedAt, tr.StopIssuedOp, tr.StopInFlight)
+	}
 	if !tr.StopReturned {
 		return fmt.Errorf("%s issued at %dns during op #%d with %d item(s) in flight did not complete within 50 settle rounds of virtual time and without any release (%s)", tr.StopMode, tr.StopIssuedAt, tr.StopIssuedOp, tr.StopInFlight, firstLine(tr.Deadlock))
 	}
